@@ -15,10 +15,10 @@ theorem source_build_plan_is_model {K : Type} [DecidableEq K] (le : K → K → 
   Copia.GenEqLoops.buildPlan_eq le excl src dst withDelete
 
 /-- C04 (push: a file is counted as delivered only if it was): the remote command of the current source
-exits 0 iff the stream was staged, its size matched the announced size, the rename over the destination
-and the mtime stamp all succeeded (`Gen.pushConns` regenerated from transfer.rs; `Model/Shell.eval`) -/
+exits 0 iff the stream was staged, its size matched the announced size, the destination was not a directory,
+and the rename over the destination and the mtime stamp succeeded (`Gen.pushConns` regenerated from transfer.rs; `Model/Shell.eval`) -/
 theorem source_push_failure_is_reported (ok : Nat → Bool) :
-    (Copia.Shell.eval ok Copia.Gen.pushConns).2 = true ↔ (ok 0 = true ∧ ok 1 = true ∧ ok 2 = true ∧ ok 3 = true) :=
+    (Copia.Shell.eval ok Copia.Gen.pushConns).2 = true ↔ (ok 0 = true ∧ ok 1 = true ∧ ok 2 = true ∧ ok 3 = true ∧ ok 4 = true) :=
   Copia.C09.push_command_status ok
 
 end Copia.C04
